@@ -6,6 +6,7 @@
 -/
 import Fx.OutputOk
 import Fx.Lemmas.Emit
+import Fx.Render
 namespace Fx.C07
 open Fx
 
@@ -45,5 +46,50 @@ theorem C07_impl_params_consistent (a : Ast) (m : Module) (h : generateModule a 
     simpa [List.map_map, Function.comp_def] using this
   · rw [h3]
     simp [emitWireSize, List.map_map, Function.comp_def, emitSize_name, emitSize_generic]
+
+/-! ### the documented shape of the types (what `print_types` writes, as the model of it that T1 compares token by token) -/
+
+/-- structs keep their fields: one `pub` field per declared field, in declaration order, under the declared name
+    (through `SafeName`), optional fields as `Option<Box<_>>` -/
+theorem C07_struct_shape (a : Ast) (s : Struct) :
+    emitTypeDecl a (.struct s) = some (.struct s.name (a.isGeneric s.name) (s.fields.map fun f =>
+      (f.fieldName, if f.isOptional then .optBox (payloadTy a f.fieldValue) else payloadTy a f.fieldValue))) := rfl
+
+/-- the printed field names, in order -/
+theorem C07_struct_field_names (a : Ast) (s : Struct) (g : Bool) (fs : List (String × TyExpr))
+    (h : emitTypeDecl a (.struct s) = some (.struct s.name g fs)) :
+    fs.map (fun f => safeName f.1) = s.fields.map (fun f => safeName f.fieldName) := by
+  simp only [emitTypeDecl, Option.some.injEq, TypeDecl.struct.injEq, true_and] at h
+  rw [← h.2]
+  simp [List.map_map, Function.comp_def]
+
+/-- reserved words get `_v`; every other field name is printed as declared (TRUE/FALSE lower-cased) -/
+theorem C07_safe_name (s : String) :
+    safeName s = if isKeyword s then s ++ "_v" else if s == "TRUE" then "true" else if s == "FALSE" then "false" else s := rfl
+
+/-- unions are enums with one variant per case label (every label of a fall-through group gets its own variant with the
+    group's payload), then one payload-less variant per void label, then `default` if it carries data -/
+theorem C07_union_shape (a : Ast) (u : Union) :
+    emitTypeDecl a (.union u) = some (.union u.name (a.isGeneric u.name)
+      ((u.cases.map fun c => c.caseValues.map fun l => (l, some (armTy a c.fieldValue))).flatten
+       ++ u.voidCases.map (fun l => (l, none))
+       ++ (match u.default with | some d => [("default", some (armTy a d.fieldValue))] | none => []))) := rfl
+
+/-- variant names get `v_` in front of a leading digit and are otherwise the label itself -/
+theorem C07_variant_name_digit (c : Char) (cs : List Char) (h : '0' ≤ c ∧ c ≤ '9') :
+    nonDigitName (String.ofList (c :: cs)) = "v_" ++ String.ofList (c :: cs) := by
+  simp [nonDigitName, h]
+
+theorem C07_variant_name_other (c : Char) (cs : List Char) (h : ¬ ('0' ≤ c ∧ c ≤ '9')) :
+    nonDigitName (String.ofList (c :: cs)) = String.ofList (c :: cs) := by
+  simp [nonDigitName, h]
+
+/-- typedefs are distinct tuple newtypes named after the alias (except `typedef t t`-style identities, which print nothing) -/
+theorem C07_typedef_newtype (a : Ast) (td : Typedef) (h : (td.target == td.alias.unwrapArray) = false) :
+    ∃ g sp inner, emitTypeDecl a (.typedef td) = some (.typedef td.alias.unwrapArray.asStr g sp inner) := by
+  simp only [emitTypeDecl, h, Bool.false_eq_true, if_false]
+  split
+  · exact ⟨_, _, _, rfl⟩
+  · split <;> exact ⟨_, _, _, rfl⟩
 
 end Fx.C07
